@@ -608,6 +608,32 @@ def s1(ctx):
                   'state[%d]: written from %s, read back into %s' % (i, t, sorted(got)),
                   'state[%d] is written from %s but read into %s' % (i, t, sorted(got) or 'nothing'),
                   rf.loc)
+    # every position is written unconditionally: the only condition allowed around a value is
+    # the null test of that very value (`x ? x : None`)
+    for label, call in (('node', wc), ('state', wsc)):
+        for i, a in enumerate([x for x in call.call_args() if x is not None]):
+            bad = None
+            for co in a.walk():
+                if co.kind != 'ConditionalOperator' or len(co.kids) != 3:
+                    continue
+                cond, tv, fv = co.kids
+
+                def names(e):
+                    return {m.name for m in e.walk() if m.kind == 'MemberExpr' and m.name and
+                            not m.name.startswith('operator')} | \
+                           {(d.ref or {}).get('name') for d in e.walk() if d.kind == 'DeclRefExpr'
+                            and (d.ref or {}).get('kind') in ('VarDecl', 'ParmVarDecl')}
+                cn = {x for x in names(cond) if x}
+                tn = {x for x in names(tv) if x}
+                if not (cn and cn <= tn | {'ptr'} and 'none' in fv.text(4)):
+                    bad = co
+            ctx.check('ToPickleable/%s[%d]/unconditional' % (label, i), bad is None,
+                      'ToPickleable: %s position %d is written for every treespec (only a null value '
+                      'is replaced by None)' % (label, i),
+                      'ToPickleable: %s position %d is written as `%s`: for some treespecs the value '
+                      'is replaced, so the unpickled treespec differs from the original (repr, '
+                      'namespace, lookups)' % (label, i, bad.text(5) if bad is not None else ''),
+                      (bad.loc if bad is not None else wf.loc))
     ctx.check('ToPickleable/state-has-flags',
               {'m_none_is_leaf', 'm_namespace'} <= set(wmap.values()),
               'none_is_leaf and namespace are part of the pickled state',
